@@ -196,7 +196,7 @@ def _limits(stack_kb=None, cpu_s=None):
     return f
 
 
-def run_lines(exe, lines, stack_kb=None, cpu_s=None, timeout=600, env=None):
+def run_lines(exe, lines, stack_kb=None, cpu_s=None, timeout=3600, env=None):
     """Feed lines to a line-protocol program; returns RunResult.  A crash is
     attributed to the first input line that has no output line."""
     data = ("\n".join(lines) + "\n").encode()
